@@ -219,6 +219,10 @@ func Units(p *Program, prop string) []*Unit {
 		if fc.Flags["inline"] && len(fc.Ensures) == 0 && len(fc.Requires) == 0 {
 			continue // marker only: callers inline the body
 		}
+		if fc.Flags["callsites"] {
+			us = append(us, VerifyCallsites(p, fc, prop))
+			continue
+		}
 		us = append(us, VerifyFunc(p, fc, prop))
 	}
 	for _, l := range p.Contracts.Lemmas {
